@@ -311,7 +311,7 @@ AddSubclassEdge(sup, sub) ==
 AddGenerator(g) ==
   /\ g \notin gens
   /\ gens' = gens \cup {g}
-  /\ tab' = tab \cup {<<ret[g], g>>}
+  /\ tab' = IF Registered(ret[g]) THEN tab \cup {<<ret[g], g>>} ELSE tab   \* None / primitives: not kept
   /\ memo' = MemoAfterAddGenerator(memo)
   /\ UNCHANGED <<hier, extra, h, rel, ret>>
 
@@ -368,8 +368,8 @@ CacheCoherent ==
   Complete => LET st == [h |-> h, reg |-> Reg, prov |-> Prov]
               IN \A k \in DOMAIN memo : memo[k] = Raw(st, EmptyMemo, k)
 
-\* every generator is registered exactly once, under the type it generates now
-TableConsistent == tab = TabOf(gens, ret)
+\* every generator (that is kept at all) is registered exactly once, under the type it generates now
+TableConsistent == tab = TabOf({g \in gens : Registered(ret[g])}, ret)
 \* C26 along a history: every generator in a memoised offered set returns -- NOW -- a type that
 \* may be a subtype of the requested type.  (Holds under NoProviderClearOnAddEdge too: an offered
 \* set that survives an edge only misses generators, the relations grow with the graph.)
